@@ -15,6 +15,7 @@ LEVEL = dict(
                 "matches another implementation: agreement with the standard beyond these facts is outside static reach.",
     trusted_base=["rustc MIR and callee resolution", "ISO 32000-1 §7.6 / ISO 32000-2 §7.6 constants embedded in the rule table"],
 )
+LEVEL["rule_text"] += '; Algorithm 2(h) re-hashes the first n bytes of each MD5 output, Algorithms 3(c) and 7 the whole 16; a method called on a security handler under construction computes from no field that still holds the placeholder of ..Default::default() (Algorithm 9 needs the U string)'
 
 PAD = "28bf4e5e4e758a4164004e56fffa01082e2e00b6d0683e802f0ca9fe6453697a"
 
@@ -97,6 +98,9 @@ TABLE = [
     ("alg2.md5-50", "PasswordAlgorithm::compute_file_encryption_key_r4", "ranges", r"^Range::Range\{0,50\}$", 1, "Algorithm 2(h): 50 further MD5 rounds"),
     ("alg2.rev3", "PasswordAlgorithm::compute_file_encryption_key_r4", "conds", r"^Ge\(arg1\.revision,3\)$", 2, "Algorithm 2(h,i): revision 3 or greater"),
     ("alg2.keylen-16", "PasswordAlgorithm::compute_file_encryption_key_r4", "conds", r"^Gt\((?:\$\d+|arg\d+),16\)$", 1, "Algorithm 2(i): at most 16 bytes of the hash"),
+    ("alg2.md5-first-n", "PasswordAlgorithm::compute_file_encryption_key_r4", "calls", r"^digest\(index\(.*RangeTo::RangeTo\{.+\}\)\)$", 1, "Algorithm 2(h): each of the 50 rounds hashes the first n bytes of the previous output"),
+    ("alg3.md5-whole", "PasswordAlgorithm::compute_hashed_owner_password_r4", "calls", r"^digest\((?!.*Range(?!Full)).*\)$", 1, "Algorithm 3(c): each of the 50 rounds hashes the whole 16-byte output of the previous one (not its first n bytes, which is Algorithm 2's rule)"),
+    ("alg7.md5-whole", "PasswordAlgorithm::recover_user_password_r4", "calls", r"^digest\((?!.*Range(?!Full)).*\)$", 1, "Algorithm 7(a) = 3(a)-(d): each of the 50 rounds hashes the whole 16-byte output of the previous one"),
     ("alg3.md5-50", "PasswordAlgorithm::authenticate_owner_password_r4", "ranges", r"^Range::Range\{0,50\}$", 1, "Algorithm 3(c)/7: 50 further MD5 rounds"),
     ("alg7.rc4-19-down", "PasswordAlgorithm::authenticate_owner_password_r4", "ranges", r"^rev\(new\((1,19|0,sel\(19 if Ge\(arg1\.revision,3\) else 0\))\)\)$", 1, "Algorithm 7(b): RC4 with keys XOR 19 down to 1 (followed by the plain key, which is counter 0: 19 down to 0 for revision 3 or greater, 0 alone otherwise)"),
     ("alg7.rev3", "PasswordAlgorithm::recover_user_password_r4", "conds", r"^Ge\(arg1\.revision,3\)$", 3, "Algorithm 3(c),(d) / 7(b): the 50 MD5 rounds, the key length and the 19 RC4 passes each depend on revision 3 or greater"),
@@ -322,6 +326,11 @@ def fields_read_through_self(F, callee, adt_suffix, _memo={}):
     return out
 
 
+# fields of the PasswordAlgorithm a method takes as INPUT (ISO 32000-2 Algorithms 8-10): Algorithm 9 hashes the owner password with
+# the 48-byte U string; Algorithm 10 needs nothing but P and EncryptMetadata (given in the literal)
+INPUT_FIELDS = {"compute_hashed_owner_password_r6": ("user_value",)}
+
+
 def set_before_read(ctx, F, fn, adt_suffix="PasswordAlgorithm"):
     """in `fn`, a PasswordAlgorithm value is filled in step by step; a method called on it must not read a field that is
     only assigned later (Algorithm 9 computes O/OE from the 48-byte U string: U must be in place first)."""
@@ -342,10 +351,30 @@ def set_before_read(ctx, F, fn, adt_suffix="PasswordAlgorithm"):
                 e = s_["lhs"]["p"][0]
                 if isinstance(e, dict) and e.get("n") in reads and (b.can_reach(c.bb, bi) and not (bi == c.bb)):
                     late.append((e["n"], s_["ln"]))
+            # ... nor one that still holds the placeholder of `..Default::default()`: a field the callee reads and the struct
+            # literal takes from the default value must have been assigned on every way to the call
+            unset = []
+            ld = b.single_def(L)
+            if ld is not None and ld[2] == "rv" and ld[3]["k"] == "agg" and ld[3]["kind"].get("a") == "adt" and ld[3]["kind"].get("fields"):
+                for fname, fo in zip(ld[3]["kind"]["fields"], ld[3]["ops"]):
+                    if fname not in reads:
+                        continue
+                    fp = op_place(fo)
+                    if fp is None or not fp["p"]:
+                        continue
+                    dd = b.single_def(fp["l"])
+                    if not (dd is not None and dd[2] == "call" and re.search(r"default::Default>?::default$", dd[3]["f"].get("fn") or dd[3]["f"].get("res") or "")):
+                        continue
+                    stores = [(bi, si) for bi, si, s_ in b.stmts() if "lhs" in s_ and s_["lhs"]["l"] == L and s_["lhs"]["p"]
+                              and isinstance(s_["lhs"]["p"][0], dict) and s_["lhs"]["p"][0].get("n") == fname]
+                    if not any(bi != c.bb and b.dominates(bi, c.bb) or bi == c.bb for bi, si in stores):
+                        unset.append(fname)
+            # only what the callee computes FROM: the results it is about to produce for the same value are not inputs
+            late = late + [(x, 0) for x in unset if x in INPUT_FIELDS.get(c.cname.rsplit("::", 1)[-1], ())]
             n += 1
             ctx.ob("R-ORDER", "set-before-read|%s|%s@%d" % (fn, c.cname.rsplit("::", 1)[-1], n), not late,
                    "%s reads only fields that are already assigned" % c.cname.rsplit("::", 1)[-1], b.where(c.ln),
-                   what="%s calls %s, which reads %s of the value under construction, before the assignment at line %s: the value is "
+                   what="%s calls %s, which reads %s of the value under construction, before the assignment at line %s (0: it is never assigned and still holds the default placeholder): the value is "
                         "computed from the placeholder (e.g. Algorithm 9 hashes the owner password without the U string)"
                         % (fn, c.cname.rsplit("::", 1)[-1], sorted({x for x, _ in late}), sorted({l for _, l in late})))
     return n
